@@ -112,6 +112,12 @@ CHECKS['C18'] = dict(level='exploration',
     note='Trusted: the generator\'s own nesting bookkeeping as the expected depth (the O dump is not used); the closed form was calibrated on the pinned tree (0 disagreements in 565k lines) and is frozen in vf/props/c18.py expected_width().',
     design='DESIGN.md §2 C18')
 
+CHECKS['C04'] = dict(level='exploration',
+    technique='runtime monitoring: allowed-edit residual oracle on the independent lexer\'s token streams (tokens of the kinds the enabled mod_ options name removed from both streams, the rest must be identical; line groups as multisets; pairs and balance) over an exhaustive mod_ option x value sweep and seeded option subsets',
+    text='Every one of the 57 mod_ options singly at every value (exhaustive over options x values) and seeded subsets of 0..10 mod_ options with random whitespace options are applied to corpus files of all nine languages and to generated C/C++/Java programs (nested single-statement bodies, if/else chains, switch/case, do-while, bare blocks, own-line comments). After removing the token texts the enabled options are documented to add or remove (braces, parentheses, ";", "int", ",", "return ;", loop-header tokens; whole include/import/using/alias lines compared as multisets; statement-moving options compared as multisets) the input and output token streams with directive brackets must be identical, braces/parentheses must be added or removed in pairs, balanced nesting must stay balanced, and with no mod_ option enabled the streams must be identical.',
+    note='Trusted: the independent lexer (precise for C, C++, ObjC, Java, C#; for the other languages a boundary-only difference with equal characters is accepted). Files whose token stream already changes under the default configuration (C02 findings) are classed baseline-differs.',
+    design='DESIGN.md §2 C04')
+
 ALL = ['C%02d' % i for i in range(1, 21)]
 
 
